@@ -35,6 +35,8 @@ type Step struct {
 
 type Case struct {
 	NestedDirs bool   `json:"nested"`
+	// Colliding: the two hooks have names that look alike once path separators and dots are replaced (x/h.sh, x-h.sh)
+	Colliding bool `json:"colliding,omitempty"`
 	Steps      []Step `json:"steps"`
 }
 
@@ -42,6 +44,7 @@ var fileStates = []string{"untouched", "untouched", "untouched", "untouched", "v
 
 func gen(t *rapid.T) Case {
 	c := Case{NestedDirs: rapid.Bool().Draw(t, "nested")}
+	c.Colliding = rapid.IntRange(0, 3).Draw(t, "colliding") == 0
 	n := rapid.IntRange(1, 5).Draw(t, "n")
 	for i := 0; i < n; i++ {
 		s := Step{Hook: rapid.IntRange(0, 1).Draw(t, "hook")}
@@ -152,6 +155,9 @@ func runCase(c Case) (ev.Info, error) {
 	hooks := []string{"h0", "h1"}
 	if c.NestedDirs {
 		hooks = []string{"dir a/h0", "b/c/h1"}
+	}
+	if c.Colliding {
+		hooks = []string{"x/h.sh", "x-h.sh"}
 	}
 	for i, h := range hooks {
 		d := hcfg.D{Schedules: []hcfg.Sched{{Name: fmt.Sprintf("tick%d", i), Crontab: crontabs[i], Queue: fmt.Sprintf("q%d", i)}}}
